@@ -51,7 +51,7 @@ class Gen:
     """layout: 0 canonical, 1 mild, 2 wild.  crlf: line endings.  profile: weights of item kinds."""
 
     def __init__(self, g, layout=1, crlf=False, p_doc=0.5, max_depth=3, max_items=6, malformed=0.0,
-                 weights=None, doc_lines=None, idents=None, lg=None, doc_blocks=None, p_gap=0.12, p_docimpl=0.0, p_dup=0.0, p_stale=0.0):
+                 weights=None, doc_lines=None, idents=None, lg=None, doc_blocks=None, p_gap=0.12, p_docimpl=0.0, p_dup=0.0, p_stale=0.0, same_line=0.0):
         # g decides the module's content (its token sequence); lg decides only the layout, so the same content seed
         # with different layout seeds yields layout variants of one module
         self.g = g; self.lg = lg if lg is not None else g; self.layout = layout; self.crlf = crlf; self.p_doc = p_doc; self.max_depth = max_depth
@@ -60,6 +60,7 @@ class Gen:
         self.doc_lines = doc_lines or DOC_LINES
         self.doc_blocks = doc_blocks
         self.p_gap = p_gap; self.p_docimpl = p_docimpl; self.p_dup = p_dup; self.p_stale = p_stale
+        self.same_line = same_line; self.last_was_call = False
         self.idents = idents or IDENTS
         self.n_items = 0
         self.class_names = []       # names of the classes that are open where the next item is generated
@@ -167,6 +168,11 @@ class Gen:
         pre = self.sep_cmd(indent, first=first and not after_doc)
         if after_doc and not any(a[0] in ('n', 'rn', 'lc') for a in pre):
             pre = [self.nl()] + pre
+        if self.same_line and self.last_was_call and not first and not after_doc and lg.random() < self.same_line:
+            # the command starts on the line on which the previous one ended (CMake itself wants a line ending between commands; CMinx's
+            # grammar does not, and the token sequence is the same)
+            pre = [['s', lg.randint(1, 2)]] if lg.random() < 0.7 else []
+        self.last_was_call = True
         return dict(pre=pre, name=case_mix(lg, name, self.layout), sp=(0 if self.layout < 2 or lg.random() < 0.7 else lg.randint(1, 2)),
                     args=args, close=self.sep_close())
 
@@ -174,6 +180,7 @@ class Gen:
     def doc(self, indent, first=False, lines=None, open_suffix='', force=False):
         g = self.g; lg = self.lg
         if not force and g.random() >= self.p_doc: return None
+        self.last_was_call = False
         if lines is None and self.doc_blocks is not None:
             lines = []
             for b in range(g.randint(0, 3)):
@@ -323,6 +330,7 @@ class Gen:
             if g.random() < 0.3: rest.append(self.tok(nm))
             if g.random() < 0.2: rest.append(self.tok(g.choice(['name', 'Name', 'NAMES', 'xNAME'])))
             pos = g.randint(0, len(rest)); toks = rest[:pos] + [self.tok('NAME'), self.tok(nm)] + rest[pos:]
+            if g.random() < 0.12: toks = [self.tok(nm)] + [t for t in rest if t != ['b', 'NAME']]      # CMake's positional signature add_test(<name> <cmd> [<arg>...])
             if mal:
                 m = g.random()
                 if m < 0.3: toks = toks[:1]
@@ -447,7 +455,7 @@ def all_arg_texts(m):
     return out
 
 
-def well_formed(m, documented_impl=False):
+def well_formed(m, documented_impl=False, positional=False):
     """the hypotheses of the structural theorems: balanced blocks by construction, valid arities, declarations inside
     the right context, no K2 name; returns (ok, reason).  documented_impl=True also admits an implementing definition that
     carries a doccomment of its own (the property text can be read either way about that definition's own entry, see
@@ -477,7 +485,10 @@ def well_formed(m, documented_impl=False):
                 if n == 'option' and not 2 <= len(s) <= 3: return 'option arity'
                 if n == 'cpp_attr' and (len(s) < 2 or not in_class): return 'attr'
                 if n == 'add_test':
-                    if len(s) < 2 or s[-1] == 'NAME' or s.count('NAME') != 1: return 'add_test arity'
+                    # positional=True also admits CMake's positional signature add_test(<name> <cmd> ...): an entry is due (C02), how it
+                    # is headed is not prescribed (C11 speaks of "the argument following NAME")
+                    if positional and len(s) >= 2 and s.count('NAME') == 0: pass
+                    elif len(s) < 2 or s[-1] == 'NAME' or s.count('NAME') != 1: return 'add_test arity'
             elif k == 'block':
                 n = cname(it['open']); s = singles(it['open'])
                 if STRUCT_OPEN.get(n) != cname(it['close']):
@@ -575,7 +586,8 @@ def spec_entries(m, cfg, reading='B'):
                         out.append(dict(t='opt', name=s[0], doc=doc_text(d), help=s[1], val=s[2] if len(s) == 3 else None))
                 elif n == 'add_test':
                     if documented or incl['add_test']:
-                        i = s.index('NAME'); out.append(dict(t='ctest', name=s[i + 1], doc=doc_text(d), params=s[:i] + s[i + 2:]))
+                        if 'NAME' in s: i = s.index('NAME'); out.append(dict(t='ctest', name=s[i + 1], doc=doc_text(d), params=s[:i] + s[i + 2:]))
+                        else: out.append(dict(t='ctest', name='', doc=doc_text(d), params=list(s), loose=True))      # heading not prescribed
                 elif n == 'cpp_attr':
                     if isinstance(cls, dict) and (documented or incl['cpp_attr']):
                         cls['attrs'].append(dict(name=s[1], doc=doc_text(d), pc=s[0], dv=s[2] if len(s) > 2 else None))
